@@ -65,6 +65,13 @@ theorem actor_crash_consistent (F : Oracle) (cfg : WbCfg) (cap : Nat) (rid now :
   rw [hw, ha]
   exact ⟨crash_consistent_flush_partial current F rid ops hno, (crash_consistent_structural current F rid ops).2⟩
 
+/-- **bounded memory**: the mailbox never holds more than `cap` messages — the purpose of the
+    bounded channel, for every schedule -/
+theorem mailbox_never_exceeds_capacity (F : Oracle) (cfg : WbCfg) (cap : Nat) (st : Store) (rid now : Nat)
+    (evs : List Ev) : (StreamActor.run F cfg cap (A.init st rid now) evs).mailbox.length ≤ cap :=
+  TraceInv.run_inv (step F cfg cap) (fun a => a.mailbox.length ≤ cap)
+    (fun s e hs => bounded_step F cfg cap s e hs) (A.init st rid now) (by simp [A.init]) evs
+
 /-! ## what `push` accepted is never discarded -/
 
 /-- **an accepted update is never discarded** — after every event of every schedule, for every
